@@ -1446,6 +1446,34 @@ def c14_gen_msg(rng, big=False):
     return ['R', v] + t
 
 
+def c14_silent_link(run, seconds):
+    """L4: a sync to a remote destination whose doer freezes for `seconds` right after the handshake (SIGSTOP/SIGCONT through the fake ssh):
+    a link that has merely been silent must still deliver everything - the run ends 0 with the destination mirrored, only later."""
+    from . import l3, l4
+    if not os.path.exists(C.CLI_BIN):
+        ok, _ = C.build_cli()
+        if not ok: return None
+    sb = l4.Sandbox(); sb.place_remote('same')
+    try:
+        src, dst = sb.dir + '/src', sb.dir + '/dst'
+        l3.make_tree(src, [('', 'D'), ('a', 'F', b'alpha', 10**18), ('sub', 'D'), ('sub/b', 'F', l3.content(3, 70000), 10**18 + 5)])
+        mark = sb.dir + '/paused.mark'
+        t0 = time.time()
+        r = l4.run_cli([src + '/', 'localhost:' + dst + '/', '--deploy', 'error'], env=sb.env({'FAKE_PAUSE': str(seconds), 'FAKE_PAUSE_MARK': mark}), timeout=seconds + 120)
+        took = time.time() - t0
+        good = r['rc'] == 0 and os.path.exists(dst + '/sub/b') and open(dst + '/sub/b', 'rb').read() == l3.content(3, 70000)
+        run.case(('silent-link', seconds), True, sample=dict(layer='L4', what='remote doer frozen right after the handshake', seconds=seconds, rc=r['rc'], wall=round(took, 1), frozen=os.path.exists(mark)))
+        run.count(f'silent-link:{seconds}s:rc={r["rc"]}'); run.cov['traces_validated_against_impl'] += 1
+        if not os.path.exists(mark):
+            return None           # the freeze did not happen (doer gone before): nothing learnt
+        if not good:
+            return dict(kind='oracle-failed-on-implementation', oracle='a link that was silent for a while still delivers every message: the run ends 0 with the destination mirrored', layer='L4',
+                        how=f'fake ssh freezes the remote doer (SIGSTOP) for {seconds} s right after the handshake, then lets it go on (SIGCONT)', seconds=seconds, rc=r['rc'], wall=round(took, 1), stderr=r['err'][-600:])
+        return None
+    finally:
+        sb.close()
+
+
 def c14_small_capacity_syncs(run):
     """L4: whole syncs through the real channels with a tiny capacity (override hook), so that every sender is held back again and again
     while the boss consumes with try_recv / select: everything must arrive (destination == source) and the run must end"""
@@ -1574,8 +1602,28 @@ def check_C14(run):
             break
 
     c14_small_capacity_syncs(run)
+    # socket options (time-outs, non-blocking mode): none in the unchanged source (extracted; obligation C14_link_socket_plain).  If some appear,
+    # the search waits out the durations that occur in the source (plus a margin) with a frozen remote doer; the thorough tier always does one pause.
+    sock_bad = st.get('link-socket')
+    silent_fail = None
+    if not (sock_bad or thorough):
+        silent_fail = c14_silent_link(run, 3)          # every run: a short silence
+        if silent_fail: run.violation(silent_fail)
+    if sock_bad or thorough:
+        import re as _re2
+        try:
+            seen = [int(x) for x in _re2.findall(r'\d+', open(os.path.join(C.LEAN, 'RjModel', 'Generated', 'LinkSocket.lean')).read().split('durationsSeen')[-1])]
+        except OSError:
+            seen = []
+        waits = sorted({x + 5 for x in seen if 2 <= x <= 120})[:2] if sock_bad else []
+        for w in (waits or [35]):
+            silent_fail = c14_silent_link(run, w)
+            if silent_fail:
+                run.violation(silent_fail); break
 
     def on_broken(failed):
+        if silent_fail:
+            return dict(found_by='frozen remote doer', **silent_fail)
         if chan_fail:
             return dict(found_by='real channel runs with an idle receiver', **min(chan_fail, key=lambda o: len(o['request_line'])))
         return None
